@@ -47,7 +47,7 @@ PROPS = {
     "C17": dict(module="ERP.Properties.C17", suites=["region"], oracle="c17",
                 theorems=["ERP.C17.rect_contains_iff", "ERP.C17.rect_corner_order",
                           "ERP.C17.circle_contains_iff", "ERP.C17.containsRegion_sound"]),
-    "C18": dict(module="ERP.Properties.C18Idem", suites=["parser", "text"], oracle="c18", theorems=[]),
+    "C18": dict(module="ERP.Properties.C18Closure", suites=["parser", "text"], oracle="c18", theorems=[]),
     "C19": dict(module="ERP.Properties.C19", suites=["parser", "text", "filter"], oracle="c19", theorems=[]),
     "C20": dict(module="ERP.Properties.C20", suites=["stream", "parser"], oracle="c20", theorems=[]),
 }
